@@ -230,12 +230,26 @@ for V_kw in V_kws:
              ['V_c = load_chemistry_from_hdf5(V_loc, replacement_dict=V_r)', 'V_p = load_pressure_from_hdf5(V_loc, replacement_dict=V_r)',
               'V_t = load_temperature_from_hdf5(V_loc, replacement_dict=V_r)', 'V_pl = load_planet_from_hdf5(V_loc, replacement_dict=V_r)',
               'V_s = load_star_from_hdf5(V_loc, replacement_dict=V_r)',
-              "V_kw['planet'] = V_pl", "V_kw['star'] = V_s", "V_kw['chemistry'] = V_c", "V_kw['temperature_profile'] = V_t",
-              "V_kw['pressure_profile'] = V_p",
               "V_m = load_generic_profile_from_hdf5(V_loc, 'taurex.model', 'model_type', premade_dict=V_kw, replacement_dict=V_r)",
               "V_cl = V_loc['Contributions']",
               'V_m.add_contribution(load_contrib_from_hdf5(V_cl, V_ci, replacement_dict=V_r))', 'return V_m'],
              binding={'V_loc': ps[0], 'V_r': ps[1]})
+        # the five components reach the model constructor under its own keyword names, however the dictionary is built
+        from sa.helpers import dict_facts
+        fl = mkflow(ix, site)
+        facts = dict_facts(fl)
+        pe = param_env(fl, f, ['loc', 'r'])
+        why = []
+        for key, loader in (('planet', 'load_planet_from_hdf5'), ('star', 'load_star_from_hdf5'),
+                            ('chemistry', 'load_chemistry_from_hdf5'), ('temperature_profile', 'load_temperature_from_hdf5'),
+                            ('pressure_profile', 'load_pressure_from_hdf5')):
+            got = facts.get(key, [])
+            want = spec(fl, '%s(loc, replacement_dict=r)' % loader, pe)
+            if len(got) != 1 or not fl.tab.equal(got[0][0], want) or got[0][1].guards or got[0][1].loops:
+                why.append('%s <- %s' % (key, [fmt(fl, g_[0])[:60] for g_ in got] or None))
+        R.check('1.loader.model.kw', 'TAB', site,
+                'planet, star, chemistry, temperature_profile and pressure_profile are each given the component reloaded by '
+                'its own loader', not why, key='; '.join(why), detail='; '.join(why), loc=f.loc())
 
 
 def spectrum_dicts(ix, R):
